@@ -199,17 +199,19 @@ def r2_output_table(ctx):
             else:
                 r.viol("R2:build_fns#" + k, "%s uses %s, expected %s" % (k, got.get(k), w), file=fn.file, line=fn.line)
     f = "leptos_i18n/src/macro_helpers/mod.rs"
-    want = {"builder": "{self}", "display_builder": "{self}", "build": "{self}", "into_view": "{self.0}", "build_string": "{Literal::into_strself.0}", "build_display": "{self.0}", "inner": "{self.0}", "new": "{LitWrapperv}"}
+    # value-level summaries from MIR (py/mirsum.py): the same for `self.0` / `self.inner()`, method or path call syntax
+    from rules.common import msum
+    prog = ctx.mir("main")
+    want = {"builder": "p1", "display_builder": "p1", "build": "p1", "into_view": "p1.0", "build_string": "Literal::into_str(p1.0)", "build_display": "p1.0",
+            "inner": "p1.0", "new": "LitWrapper#LitWrapper(p1)"}
     for name, w in want.items():
-        cands = [x for x in ast.fns if x.file.endswith(f) and x.name == name and x.impl_self and x.impl_self.startswith("LitWrapper<")]
-        if not cands:
+        got = msum(prog, r"macro_helpers::LitWrapper::<T>::%s$" % name)
+        if not got:
             r.missing("LitWrapper::" + name)
-            continue
-        t = flatp(show(cands[0].body))
-        if same(t, w):
-            r.inst("LitWrapper::" + name, w)
+        elif got[0][1] == w and not got[0][2]:
+            r.inst("LitWrapper::" + name, "returns " + w)
         else:
-            r.viol("R2:LitWrapper::" + name, "is `%s`, expected the identity `%s`" % (t, w), file=f)
+            r.viol("R2:LitWrapper::" + name, "returns `%s` (effects %s), expected the identity `%s`" % (got[0][1], got[0][2], w), file=f)
     futw = {"into_view": "{self.0.await.into_view}", "build_string": "{self.0.await.build_string}", "build_display": "{self.0.await.build_display}"}
     for name, w in futw.items():
         cands = [x for x in ast.fns if x.file.endswith(f) and x.name == name and x.impl_self and x.impl_self.startswith("LitWrapperFut")]
@@ -274,44 +276,26 @@ def r4_scoping(ctx):
     r = Rule("C02.R4", "scoping is type-state only",
              "a scoped context must share the locale signal, a scoped locale must wrap the same base locale", floor=5)
     ast = ctx.ast
-    fn = ast.fn("leptos_i18n/src/context.rs", "scope", impl_self="I18nContext")
-    t = flatp(show(fn.body)) if fn else ""
-    if has(t, "I18nContext{locale_signal:self.locale_signal,scope_marker:PhantomData}"):
-        r.inst("I18nContext::scope", "locale_signal: self.locale_signal (same signal, new marker type)")
-    else:
-        r.viol("R4:I18nContext::scope", "a scoped context does not share the locale signal: %s" % t, file="leptos_i18n/src/context.rs")
     f = "leptos_i18n/src/macro_helpers/scope.rs"
-    fn = ast.fn(f, "scope_ctx_util")
-    t = flatp(show(fn.body)) if fn else ""
-    if t in ("{letold_scope=ConstScope::<L,OS>::new;letnew_scope=old_scope.mapmap_fn;ctx.scopenew_scope}", "{letold_scope=ConstScope::new::<L,OS>;letnew_scope=old_scope.mapmap_fn;ctx.scopenew_scope}"):
-        r.inst("scope_ctx_util", "ctx.scope(marker)")
-    else:
-        r.viol("R4:scope_ctx_util", "is `%s`" % t, file=f)
-    fn = ast.fn(f, "scope_locale_util")
-    t = flatp(show(fn.body)) if fn else ""
-    if same(t, "{let_=map_fn;ScopedLocale::newlocale.to_base_locale}"):
-        r.inst("scope_locale_util", "ScopedLocale::new(locale.to_base_locale())")
-    else:
-        r.viol("R4:scope_locale_util", "is `%s`" % t, file=f)
-    fn = ast.fn("leptos_i18n/src/scopes.rs", "new", impl_self="ScopedLocale")
-    t = flatp(show(fn.body)) if fn else ""
-    if same(t, "{ScopedLocale{locale:locale,scope_marker:PhantomData}}"):
-        r.inst("ScopedLocale::new", "wraps the given locale")
-    else:
-        r.viol("R4:ScopedLocale::new", "is `%s`" % t, file="leptos_i18n/src/scopes.rs")
-    fn = ast.fn("leptos_i18n/src/locale_traits.rs", "get_keys")
-    t = flatp(show(fn.body)) if fn else ""
-    if same(t, "{LocaleKeys::from_localeself.to_base_locale}"):
-        r.inst("Locale::get_keys", "keys of self.to_base_locale()")
-    else:
-        r.viol("R4:Locale::get_keys", "is `%s`" % t, file="leptos_i18n/src/locale_traits.rs")
-    for name, w in (("get_keys", "{LocaleKeys::from_localeself.get_locale}"), ("get_keys_untracked", "{LocaleKeys::from_localeself.get_locale_untracked}")):
-        fn = ast.fn("leptos_i18n/src/context.rs", name, impl_self="I18nContext")
-        t = flatp(show(fn.body)) if fn else ""
-        if same(t, w):
-            r.inst("I18nContext::" + name, w)
+    from rules.common import msum
+    prog = ctx.mir("main")
+    want = [
+        (r"context::I18nContext::<L, S>::scope$", "I18nContext#I18nContext(p1.locale_signal, PhantomData#PhantomData())", "I18nContext::scope", "locale_signal: self.locale_signal (same signal, new marker type)", "leptos_i18n/src/context.rs"),
+        (r"macro_helpers::scope::scope_ctx_util$", "I18nContext#I18nContext(p1.locale_signal, PhantomData#PhantomData())", "scope_ctx_util", "the same signal under a new marker type", f),
+        (r"macro_helpers::scope::scope_locale_util$", "ScopedLocale#ScopedLocale(Locale::to_base_locale(p1), PhantomData#PhantomData())", "scope_locale_util", "wraps locale.to_base_locale()", f),
+        (r"scopes::ScopedLocale::<L, S>::new$", "ScopedLocale#ScopedLocale(p1, PhantomData#PhantomData())", "ScopedLocale::new", "wraps the given locale", "leptos_i18n/src/scopes.rs"),
+        (r"locale_traits::Locale::get_keys$", "LocaleKeys::from_locale(Locale::to_base_locale(p1))", "Locale::get_keys", "keys of self.to_base_locale()", "leptos_i18n/src/locale_traits.rs"),
+        (r"context::I18nContext::<L, S>::get_keys$", "LocaleKeys::from_locale(Get::get(p1.locale_signal))", "I18nContext::get_keys", "keys of the tracked locale", "leptos_i18n/src/context.rs"),
+        (r"context::I18nContext::<L, S>::get_keys_untracked$", "LocaleKeys::from_locale(GetUntracked::get_untracked(p1.locale_signal))", "I18nContext::get_keys_untracked", "keys of the untracked locale", "leptos_i18n/src/context.rs"),
+    ]
+    for rx, w, label, what, file in want:
+        got = msum(prog, rx)
+        if not got:
+            r.missing(label)
+        elif got[0][1] == w and not got[0][2]:
+            r.inst(label, what + ": " + w)
         else:
-            r.viol("R4:I18nContext::" + name, "is `%s`" % t, file="leptos_i18n/src/context.rs")
+            r.viol("R4:" + label, "returns `%s` (effects %s), expected `%s`" % (got[0][1], got[0][2], w), file=file)
     return r
 
 
